@@ -157,9 +157,25 @@ type scriptReader struct {
 	script []int
 	i      int
 	given  []byte
+	// a conforming io.Reader that is offered no room returns (0, nil) and keeps its data: the
+	// script does not advance.  ReadFrom that keeps offering an empty buffer never makes progress
+	// with such a reader; after maxNoRoom consecutive empty offers the reader fails the call and
+	// the oracle reports the livelock.
+	noRoom  int
+	starved bool
 }
 
+const maxNoRoom = 8
+
 func (r *scriptReader) Read(p []byte) (int, error) {
+	if len(p) == 0 {
+		if r.noRoom++; r.noRoom > maxNoRoom {
+			r.starved = true
+			return 0, errBoom
+		}
+		return 0, nil
+	}
+	r.noRoom = 0
 	if r.i >= len(r.script) {
 		return 0, io.EOF
 	}
@@ -283,8 +299,19 @@ func (m *c09) Apply(op seqmc.Op) (string, string) {
 			m.ref = m.ref[1:]
 		}
 	case "Bytes":
-		if got := rb.Bytes(); !bytes.Equal(got, m.ref) {
+		got := rb.Bytes()
+		if !bytes.Equal(got, m.ref) {
 			return "Bytes(): " + diff(got, m.ref), "Bytes:content"
+		}
+		// Bytes "only copies": the caller owns the result.  Scribbling over it (up to its capacity)
+		// must not reach the buffer's own (pooled) storage.
+		full := got[:cap(got)]
+		for i := range full {
+			full[i] ^= 0xA5
+		}
+		h, t := rb.Peek(-1)
+		if now := append(append([]byte{}, h...), t...); !bytes.Equal(now, m.ref) {
+			return "Bytes() returned a slice that aliases the buffer's storage: after writing to it the content is " + diff(now, m.ref), "Bytes:alias"
 		}
 	case "Reset":
 		rb.Reset()
@@ -329,6 +356,9 @@ func (m *c09) Apply(op seqmc.Op) (string, string) {
 	case "ReadFrom":
 		r := &scriptReader{m: m, script: op.A}
 		n, err := rb.ReadFrom(r)
+		if r.starved {
+			return fmt.Sprintf("ReadFrom%v offered the reader an empty buffer %d times in a row: a conforming reader that has data never gets to deliver it", op.A, maxNoRoom+1), "ReadFrom:noroom"
+		}
 		m.ref = append(m.ref, r.given...)
 		if n != int64(len(r.given)) {
 			return fmt.Sprintf("ReadFrom%v = %d, %v but the reader handed out %d bytes", op.A, n, err, len(r.given)), "ReadFrom:count"
